@@ -41,6 +41,7 @@ type verifFSState struct {
 	lstatErr    map[string]syscall.Errno
 	step        func(what string) // called after every atomic change
 	newData     []byte            // what json.Marshal returns
+	snapshotModel bool            // json.Marshal/Unmarshal round-trip model for snapshots and strings
 }
 
 var verifFS *verifFSState
@@ -172,7 +173,66 @@ func verifJSONMarshal(v any) ([]byte, error) {
 	if verifFS.failMarshal {
 		return nil, &os.PathError{Op: "marshal", Path: "", Err: syscall.EINVAL}
 	}
+	if verifFS.snapshotModel {
+		// round-trip model: a snapshot is remembered and named by a token, a
+		// string is quoted; Unmarshal below inverts both
+		switch v := v.(type) {
+		case snapshot:
+			cp := v
+			cp.Pods, cp.Containers, cp.PolicyJSON = map[string]*pod{}, map[string]*container{}, map[string]string{}
+			for k, p := range v.Pods {
+				cp.Pods[k] = p
+			}
+			for k, c := range v.Containers {
+				cp.Containers[k] = c
+			}
+			for k, e := range v.PolicyJSON {
+				cp.PolicyJSON[k] = e
+			}
+			verifSnapshots = append(verifSnapshots, cp)
+			return []byte("SNAPSHOT:" + string(rune('0'+len(verifSnapshots)-1))), nil
+		case string:
+			return []byte("\"" + v + "\""), nil
+		}
+	}
 	return append([]byte(nil), verifFS.newData...), nil
+}
+
+var verifSnapshots []snapshot
+
+// verifJSONUnmarshal inverts the round-trip model of verifJSONMarshal.
+func verifJSONUnmarshal(data []byte, v any) error {
+	bad := &os.PathError{Op: "unmarshal", Path: "", Err: syscall.EINVAL}
+	switch v := v.(type) {
+	case *snapshot:
+		const tag = "SNAPSHOT:"
+		if len(data) != len(tag)+1 || string(data[:len(tag)]) != tag {
+			return bad
+		}
+		n := int(data[len(tag)] - '0')
+		if n < 0 || n >= len(verifSnapshots) {
+			return bad
+		}
+		src := verifSnapshots[n]
+		v.Version, v.NextID, v.PolicyName = src.Version, src.NextID, src.PolicyName
+		for k, p := range src.Pods {
+			v.Pods[k] = p
+		}
+		for k, c := range src.Containers {
+			v.Containers[k] = c
+		}
+		for k, e := range src.PolicyJSON {
+			v.PolicyJSON[k] = e
+		}
+		return nil
+	case *string:
+		if len(data) < 2 || data[0] != '"' || data[len(data)-1] != '"' {
+			return bad
+		}
+		*v = string(data[1 : len(data)-1])
+		return nil
+	}
+	return bad
 }
 
 // ---- set-up and observation, same in both worlds
